@@ -20,6 +20,11 @@ type failingReader struct {
 	pos  int
 	step int
 	err  error // nil: errInjectedReader
+	// a reader that fails ONCE at offset failAt and would deliver the rest if asked again (a transient failure):
+	// the call must still report it
+	failAt  int
+	transit bool
+	fired   bool
 }
 
 // an injected failure that also wraps context.Canceled (an abandoned stream): still a failure of the reader / writer
@@ -29,6 +34,25 @@ var (
 )
 
 func (r *failingReader) Read(p []byte) (int, error) {
+	if r.transit {
+		if !r.fired && r.pos >= r.failAt {
+			r.fired = true
+			return 0, errInjectedReader
+		}
+		if r.pos >= len(r.data) {
+			return 0, io.EOF
+		}
+		n := len(p)
+		if !r.fired && n > r.failAt-r.pos {
+			n = r.failAt - r.pos
+		}
+		if n > len(r.data)-r.pos {
+			n = len(r.data) - r.pos
+		}
+		copy(p, r.data[r.pos:r.pos+n])
+		r.pos += n
+		return n, nil
+	}
 	if r.pos >= len(r.data) {
 		if r.err != nil {
 			return 0, r.err
@@ -148,15 +172,23 @@ func handleFaults(toks []string) (string, bool) {
 		if toks[1] != "-" {
 			var rerr error
 			ks := toks[1]
+			transit := false
 			if strings.HasSuffix(ks, "c") {
 				rerr = errReaderCanceled
+				ks = ks[:len(ks)-1]
+			} else if strings.HasSuffix(ks, "n") {
+				transit = true
 				ks = ks[:len(ks)-1]
 			}
 			k, _ := strconv.Atoi(ks)
 			if k > len(data) {
 				k = len(data)
 			}
-			r = &failingReader{data: data[:k], step: 7, err: rerr}
+			if transit {
+				r = &failingReader{data: data, failAt: k, transit: true}
+			} else {
+				r = &failingReader{data: data[:k], step: 7, err: rerr}
+			}
 		}
 		var err error
 		var acc string
